@@ -571,7 +571,18 @@ func (P *Program) registerStd() {
 	})
 	P.reg("github.com/dchest/uniuri.NewLen", func(fr *frame, args []value) value {
 		fr.in.path.noteAssumption("uniuri.NewLen returns an arbitrary string")
-		return fr.in.freshOpq()
+		v := fr.in.freshOpq()
+		if fr.in.extra["random-strings"] == nil {
+			fr.in.extra["random-strings"] = map[*smt.Term]bool{}
+		}
+		fr.in.extra["random-strings"].(map[*smt.Term]bool)[v.(*smt.Term)] = true
+		return v
+	})
+	// vh.FromRandomSource: the string was produced by the modelled cryptographic generator
+	P.reg(VH+".FromRandomSource", func(fr *frame, args []value) value {
+		m, _ := fr.in.extra["random-strings"].(map[*smt.Term]bool)
+		t, ok := args[0].(*smt.Term)
+		return fr.in.boolv(ok && m[t])
 	})
 	P.reg("github.com/dchest/uniuri.New", P.intrinsics["github.com/dchest/uniuri.NewLen"])
 	// ---- encoding/json: the encoder is outside the model; the bytes are a blob tagged with the value
